@@ -13,6 +13,10 @@
 (* loop of ConsensusState.reconstructLastCommit, over a lattice of         *)
 (* adversarial commits.                                                    *)
 (*                                                                         *)
+(* Part 3 is the module FastSync.tla (EXTENDS this one): the syncing node  *)
+(* of blockchain/reactor.go poolRoutine, which must bind the block it      *)
+(* commits to the id the precommits of second.LastCommit sign.             *)
+(*                                                                         *)
 (* Votes are abstract records.  What a wire vote can get wrong is kept as  *)
 (* one flag per check of the code; the harness instantiates every flag in  *)
 (* every way the wire allows (wrong index vs wrong address, a signature    *)
